@@ -1,0 +1,50 @@
+//go:build verif
+
+// Contracts for the verification harness in /verif (comment-only; this file
+// adds no executable code). See /verif/DESIGN.md.
+
+package robust
+
+// ---------------------------------------------------------------------------
+// C18: the wire form of a replicated message. pbRepr is the one relation both
+// protobuf encoders establish and the decoder inverts: every field of
+// Message that is replicated (InterestingFor is output-only, `json:"-"`)
+// appears exactly once.
+
+//@ pred pbRepr(p *pb.RobustMessage, m *Message) = p != nil && p.Id != nil && p.Session != nil && p.Id.Id == m.Id.Id && p.Id.Reply == m.Id.Reply && p.Session.Id == m.Session.Id && p.Session.Reply == m.Session.Reply && p.Type == m.Type && p.Data == m.Data && p.UnixNano == m.UnixNano && sameslice(p.Servers, m.Servers) && p.CurrentMaster == m.Currentmaster && p.ClientMessageId == m.ClientMessageId && p.Revision == m.Revision && p.RemoteAddr == m.RemoteAddr
+
+//@ func IdFromRaftIndex
+//@   pure
+//@   ensures result == MessageOffset + index
+
+//@ func Message.ProtoMessage
+//@   requires m != nil
+//@   ensures repr: pbRepr(result, m)
+//@   ensures fresh: fresh(result) && fresh(result.Id) && fresh(result.Session)
+//@   modifies
+
+// CopyToProtoMessage writes into a fully allocated destination whose Id and
+// Session sub-messages are distinct objects.
+//@ func Message.CopyToProtoMessage
+//@   requires m != nil && dst != nil && dst.Id != nil && dst.Session != nil && dst.Id != dst.Session
+//@   ensures repr: pbRepr(dst, m)
+//@   modifies pb.RobustMessage.Type[dst], pb.RobustMessage.Data[dst], pb.RobustMessage.UnixNano[dst], pb.RobustMessage.Servers[dst], pb.RobustMessage.CurrentMaster[dst], pb.RobustMessage.ClientMessageId[dst], pb.RobustMessage.Revision[dst], pb.RobustMessage.RemoteAddr[dst], pb.RobustId.Id[dst.Id], pb.RobustId.Reply[dst.Id], pb.RobustId.Id[dst.Session], pb.RobustId.Reply[dst.Session]
+
+// Both encoders agree: two wire forms that represent the same message are
+// equal field by field.
+//@ func lemma_encoders_agree
+//@   opt params = p *pb.RobustMessage, q *pb.RobustMessage, m *Message
+//@   requires pbRepr(p, m) && pbRepr(q, m)
+//@   ensures p.Id.Id == q.Id.Id && p.Id.Reply == q.Id.Reply && p.Session.Id == q.Session.Id && p.Session.Reply == q.Session.Reply && p.Type == q.Type && p.Data == q.Data && p.UnixNano == q.UnixNano && sameslice(p.Servers, q.Servers) && p.CurrentMaster == q.CurrentMaster && p.ClientMessageId == q.ClientMessageId && p.Revision == q.Revision && p.RemoteAddr == q.RemoteAddr
+
+// The decoder: in the protobuf branch the message is the wire form field by
+// field, except that an absent id (0) defaults to the caller's index; in
+// both branches the id is replaced by the index only when it is absent.
+// Entries in the log were written by ProtoMessage/CopyToProtoMessage, which
+// always set Id and Session (assumed at the point where the decoded value
+// is first used).
+//@ func NewMessageFromBytes
+//@   assume@after proto.Unmarshal#0 : written-by-encoder: p.Id != nil && p.Session != nil && p.Id != p.Session
+//@   assert@return #0 : decoded: len(b) > 0 && b[0] == 'p' ==> msg.Id.Reply == p.Id.Reply && msg.Session.Id == p.Session.Id && msg.Session.Reply == p.Session.Reply && msg.Type == p.Type && msg.Data == p.Data && msg.UnixNano == p.UnixNano && sameslice(msg.Servers, p.Servers) && msg.Currentmaster == p.CurrentMaster && msg.ClientMessageId == p.ClientMessageId && msg.Revision == p.Revision && msg.RemoteAddr == p.RemoteAddr
+//@   assert@return #0 : id: len(b) > 0 && b[0] == 'p' ==> msg.Id.Id == ite(p.Id.Id == 0, index, p.Id.Id)
+//@   ensures defaulted: result.Id.Id != 0 || index == 0
